@@ -11,7 +11,10 @@
             unrelated Config), 5 ToJson::to_json_string(member idx, store config) followed by
             store.to_json_string on the same thread, 6 store.to_json_file into a file of the thread's own
             (same code path as 1), 7 store.to_json_string twice on the same thread,
-            8 resource.to_txt_file(<another directory>/<same name>), 9 resource.to_txt_file(<own stand-off filename>)
+            8 resource.to_txt_file(<another directory>/<same name>), 9 resource.to_txt_file(<own stand-off filename>),
+            10 store.save() of a CBOR-format store (a scenario with such a reader is built as a CBOR store),
+            11 ToJson::to_json_string(member, Config with a non-JSON dataformat) (refused), 12 = 11 followed by
+            store.to_json_string on the same thread
      sched  the thread chosen at every scheduling decision of the deterministic scheduler (one
             decision = the chosen thread performs the access it is blocked in front of and runs up to
             its next yield site), as executed by the harness
@@ -65,6 +68,9 @@ Definition op_of (x : sx) : op :=
   | 7 => OpStoreTwice
   | 8 => OpExport i
   | 9 => OpSaveTxt i
+  | 10 => OpSaveCbor
+  | 11 => OpRefused i
+  | 12 => OpRefusedThenStore i
   | _ => OpPure
   end.
 
